@@ -75,7 +75,13 @@ def _chunk(args):
   out = []
   for rec in recs:
     try:
-      b = family.build(rec, seed)
+      if "xml" in rec:  # fixed catalogue scene (guarantees that every row kind is exercised whatever the random sample contains)
+        class B:
+          xml = rec["xml"]
+        b = B()
+        rec = {"c": {"nb": 0, "feats": [rec["name"]], "qc": "near", "vc": "rand", "catalogue": rec["name"]}}
+      else:
+        b = family.build(rec, seed)
       mjm = mujoco.MjModel.from_xml_string(b.xml)
       m = mjw.put_model(mjm)
     except Exception as e:
@@ -84,6 +90,8 @@ def _chunk(args):
     mjd = mujoco.MjData(mjm)
     d = mjw.make_data(mjm, nworld=nworld)
     st = family.make_state(rec, mjm, seed, vscale=0.5)
+    if rec["c"].get("catalogue"):
+      st["qvel"] = family.rng_for(rec["c"], seed, "v").uniform(-1, 1, size=mjm.nv)
     family.apply_state(mjm, mjd, m, d, st)
     cmp = refcmp.Cmp()
     note = record(rec, b, mjm, mjd, m, d, cmp, {})
@@ -115,6 +123,11 @@ def run(ctx: core.Ctx):
               "recorded rows; evaluations = rows validated; distinct = configurations")
   n = 220 if ctx.quick else 2500
   recs = c05.sample(ctx, n, seed_off=24)
+  from ..scenes import rows_scene
+  for cone in ("pyramidal", "elliptic"):
+    for jac in ("dense", "sparse"):
+      recs.append({"name": f"rows_{cone}_{jac}", "xml": rows_scene([1, 3, 4, 6], connects=1, welds=1, hinges=3, hinge_limit=True, hinge_friction=True, jointeqs=1,
+                                                                  cone=cone, jacobian=jac)})
   CH = max(1, len(recs) // 40 + 1)
   work = [(recs[i : i + CH], ctx.seed, 2) for i in range(0, len(recs), CH)]
   rows, worlds, owners = [], [], []
